@@ -104,7 +104,9 @@ pub fn exec_mpc(mut case: Case) -> Exec {
     let dirs: Vec<Option<PathBuf>> = (0..n)
         .map(|p| if case.tmp[p] { Some(fresh_scratch_dir(&format!("p{p}"))) } else { None })
         .collect();
-    let probes = if case.record_probes { Some(crate::hooks::record_probes()) } else { None };
+    if case.record_probes {
+        crate::hooks::record_probes();
+    }
     let args: Vec<PartyArgs> = (0..n)
         .map(|p| {
             case.overrides[p].clone().unwrap_or(PartyArgs {
@@ -132,9 +134,12 @@ pub fn exec_mpc(mut case: Case) -> Exec {
         }
         sim::run(&net, futs, &case.sim)
     };
-    if probes.is_some() {
+    let probes = if case.record_probes {
         crate::hooks::clear_probes();
-    }
+        crate::hooks::probes_snapshot()
+    } else {
+        vec![]
+    };
     let mut leftover = vec![];
     for d in dirs.iter().flatten() {
         if let Ok(rd) = std::fs::read_dir(d) {
@@ -157,7 +162,7 @@ pub fn exec_mpc(mut case: Case) -> Exec {
         outcomes: res.outcomes,
         end: res.end,
         net,
-        probes: probes.map(|p| p.borrow().clone()).unwrap_or_default(),
+        probes,
         steps: res.steps,
         polls: res.polls,
         sched_hash: res.sched_hash,
